@@ -44,7 +44,11 @@ func runFamily(fam string, w *bufio.Writer, r *rng, id, size int, opt string) bo
 		case "fail":
 			genCall(w, r, id, cfgFail, 2, "call")
 		case "single":
-			genCall(w, r, id, cfgSingle, 8, "call")
+			if r.chance(1, 4) {
+				emitCall(w, genHopCycle(r, cfgSingle), id, 12, "call", "")
+			} else {
+				genCall(w, r, id, cfgSingle, 8, "call")
+			}
 		case "acyclic":
 			genCall(w, r, id, cfgAcyclic, 8, "call")
 		case "exact":
